@@ -871,6 +871,9 @@ func c08Rules(c *Ctx) {
 	ruleDepth(c, "fast", c08Files, "A3-depth", "A4-storage")
 	ruleIndexSlots(c, "P1-index-slots", "P2-operand-order")
 	ruleBuiltins(c, "B1-builtin")
+	ruleAbsentMapKey(c, "M1-absent-key", nil)
+	ruleAppendEllipsis(c, "B2-append-ellipsis")
+	ruleMakeSliceBounds(c, "B3-makeslice-bounds")
 	c.Floor("U-uniform", 250)
 	c.Floor("P1-index-slots", 100)
 	c.Floor("P2-operand-order", 45)
@@ -889,6 +892,9 @@ func init() {
 			"the Go signature of every builtin value agrees in parameter count, result count and variadicity with the interpreted type it is declared with, wrappers pass their parameters to the primitive in order, " +
 			"argument k of the compiled call derives from node.Args[k], every builtin value has an arm in call_builtin and every arm is inhabited, and every arm passes argument closure k in slot k; " +
 			"U/U-2d sibling uniformity, A2 reflect accessor category, A3/A4 frame depth and storage of the kind-specialised families in index.go, slice.go, compositelit.go, builtin.go, address.go, selector.go, literal.go. " +
+			"B2 append(s, t...) hands both evaluated slices, in order, to reflect.AppendSlice (block copy: s and t may overlap) and never expands t into element views (found F42: `append(s[:1], s[0:3]...)` gave [1 1 1 1]); " +
+			"B3 xreflect.MakeSlice, which allocates cap elements and reslices, rejects len > cap itself (found F43: make([]int, 3, 2) returned a slice of length 2); " +
+			"M1 a missing map key: the Value returned by reflect's MapIndex is never used through an accessor without an IsValid test, in any function of package fast (found F40: `m[k] /= 4` and `m[k] <<= 2` on a missing key panicked); " +
 			"The oracle for bounds and nil panics is reflect's own checks (trusted to equal Go's), reached because element access goes through the reflect primitive with the right operands. " +
 			"Not decided: aliasing and append growth, value semantics of arrays, composite literal construction, struct field selection, which panics reflect raises.",
 		Assumptions: []string{"reflect.Value Index/MapIndex/Slice/Slice3/Append/Copy/SetMapIndex/MakeSlice/MakeMap/MakeChan/New implement the Go operation of the same name including its panics", "builtin arity and primitive table in the checker source (Go spec: Appending and copying slices, Length and capacity, Making slices maps and channels, Allocation, Deletion of map elements)", "go/types, go/packages at x/tools v0.29.0"},
@@ -902,6 +908,9 @@ func init() {
 			{Name: "slice3-max-evaluated-before-hi", File: "fast/slice.go", Old: "\t\t\t\thi := hifun(env)\n\t\t\t\tmax := maxfun(env)\n\t\t\t\treturn obj.Slice3(lo, hi, max)", New: "\t\t\t\tmax := maxfun(env)\n\t\t\t\thi := hifun(env)\n\t\t\t\treturn obj.Slice3(lo, hi, max)", Nth: 2},
 			{Name: "omitted-low-defaults-to-one", File: "fast/slice.go", Old: "lo = c.exprValue(c.TypeOfInt(), 0)", New: "lo = c.exprValue(c.TypeOfInt(), 1)", Nth: 1},
 			{Name: "string-index-evaluated-first", File: "fast/index.go", Old: "\t\t\tstr := objfun(env)\n\t\t\ti := idxfun(env)\n\t\t\treturn str[i]", New: "\t\t\ti := idxfun(env)\n\t\t\tstr := objfun(env)\n\t\t\treturn str[i]"},
+			{Name: "map-shift-reads-missing-key", File: "fast/place_shifts.go", Old: "result := mapIndexInt(lhs, key)", New: "result := lhs.MapIndex(key).Int()", Nth: 3},
+			{Name: "append-ellipsis-element-by-element", File: "fast/builtin.go", Old: "\t\t\t\t\treturn xr.AppendSlice(arg0, arg1)", New: "\t\t\t\t\treturn xr.Append(arg0, unwrapSlice(arg1)...)"},
+			{Name: "makeslice-len-above-cap-accepted", File: "xreflect/wrap.go", Old: "\tif len > cap {\n\t\t// the slice is allocated below with length == capacity: check what reflect.MakeSlice would\n\t\tpanic(\"reflect.MakeSlice: len > cap\")\n\t}\n", New: ""},
 			{Name: "delete-args-swapped", File: "fast/builtin.go", Old: "Args: []*Expr{emap, ekey}", New: "Args: []*Expr{ekey, emap}"},
 			{Name: "delete-stores-key", File: "fast/builtin.go", Old: "vmap.SetMapIndex(vkey, xr.Value{})", New: "vmap.SetMapIndex(vkey, vkey)"},
 			{Name: "map-place-key-from-object", File: "fast/index.go", Old: "MapKey: idx.AsX1()", New: "MapKey: obj.AsX1()"},
